@@ -9,7 +9,7 @@
    effect-trace correspondence of tools/harness/c19.py: the order of the effects.
    A file's content is the list of the blocks written to it. *)
 From Coq Require Import ZArith List Bool.
-From FV Require Import Common.ListX Common.PySem Common.PyStr Common.AtomFS gen.Gen_downloads.
+From FV Require Import Common.ListX Common.PySem Common.PyStr Common.AtomFS gen.Gen_downloads gen.Gen_cifar100_cache.
 Import ListNotations.
 Local Open Scope Z_scope.
 
@@ -32,13 +32,17 @@ Inductive ev19 :=
 | DStatus                      (* r.raise_for_status(); r.headers['content-length'] *)
 | DRead (j : nat)              (* j-th r.raw.read(block_size) *)
 | DZOpen (n : str)             (* lzma.open(n, 'rb') *)
-| DZRead (j : nat).            (* j-th read of the decompressed stream by shutil.copyfileobj *)
+| DZRead (j : nat)             (* j-th read of the decompressed stream by shutil.copyfileobj *)
+| DRm (n : str)                (* os.remove(n) *)
+| DClient (j : nat)            (* the converter pulls the j-th client from the TFF iterator *)
+| DValidate (n : str).         (* downloads.validate_file(n, size, sha256) *)
 
 Definition fs_step19 (e : ev19) : @AtomFS.step str (list Blk) :=
   match e with
   | DCr n => Create n
   | DCl n b => Complete n b
   | DRn a b => Rename a b
+  | DRm n => Remove n
   | _ => Glob
   end.
 Definition apply19 (d : dir) (e : ev19) : dir := AtomFS.apply streqb d (fs_step19 e).
@@ -114,13 +118,46 @@ Definition decompress (d : dir) (dpath : str) (z : zsource) : list ev19 * bool :
          else ([DEx dpath; DZOpen path; DCr dpart] ++ e ++ [close_ev (z_close z) dpart acc], false)
   end.
 
+(* cifar100.load_split's own cache file: the TFF database converted to one record per client.
+   x_clients: what the TFF iterator yields (Some = a client, None = an exception; end of list =
+   StopIteration); x_valid: the size + sha256 check of the produced file, as a predicate on its content. *)
+Record csource := mkCS {
+  x_clients : list (option Blk);
+  x_valid : list Blk -> bool
+}.
+
+Fixpoint cv_loop (j : nat) (l : list (option Blk)) (acc : list Blk) : list ev19 * list Blk * bool :=
+  match l with
+  | [] => ([DClient j], acc, true)
+  | None :: _ => ([DClient j], acc, false)
+  | Some b :: l' => let '(e, a, ok) := cv_loop (S j) l' (acc ++ [b]) in (DClient j :: e, a, ok)
+  end.
+
+(* the conversion branch of load_split, spath = <cache>/federated_cifar100_<split>.sqlite.
+   The rows are inserted in one transaction: an exception in the iterator leaves an empty table. *)
+Definition convert (d : dir) (spath : str) (x : csource) : list ev19 * bool :=
+  let part := spath ++ split_partial_suffix in
+  match lookup streqb d spath with
+  | Some _ => ([DEx spath], true)
+  | None =>
+    let stale := match lookup streqb d part with Some _ => [DEx part; DRm part] | None => [DEx part] end in
+    let '(e, acc, ok) := cv_loop 0 (x_clients x) [] in
+    if ok then
+      if x_valid x acc
+      then ([DEx spath] ++ stale ++ [DCr part] ++ e ++ [DCl part acc; DValidate part] ++ [DRn part spath], true)
+      else ([DEx spath] ++ stale ++ [DCr part] ++ e ++ [DCl part acc; DValidate part], false)
+    else ([DEx spath] ++ stale ++ [DCr part] ++ e ++ [DCl part []], false)
+  end.
+
 (* a sequence of calls on one cache directory, each possibly killed after k effects *)
-Inductive call := CDownload (path : str) (src : source) | CDecompress (dpath : str) (z : zsource).
+Inductive call := CDownload (path : str) (src : source) | CDecompress (dpath : str) (z : zsource)
+                | CConvert (spath : str) (x : csource).
 
 Definition call_events (d : dir) (c : call) : list ev19 * bool :=
   match c with
   | CDownload p s => download d p s
   | CDecompress p z => decompress d p z
+  | CConvert p x => convert d p x
   end.
 
 Inductive outcome := Returned | Raised | Crashed.
@@ -144,6 +181,7 @@ End Model.
 Arguments ev19 : clear implicits.
 Arguments source : clear implicits.
 Arguments zsource : clear implicits.
+Arguments csource : clear implicits.
 Arguments call : clear implicits.
 
 (* ---------------------------------------------------------------------------
@@ -152,7 +190,7 @@ Arguments call : clear implicits.
 
 Inductive oev19 :=
 | OMk | OEx (final : bool) | OCr (partial : bool) | OWr | OCl (n : Z) | OClErr | ORn | OGet | OStatus | ORead (j : nat)
-| OZOpen | OZRead (j : nat) | OBad.
+| OZOpen | OZRead (j : nat) | ORm | OClient (j : nat) | OValidate | OBad.
 
 Inductive ofile := OWhole (n : Z) | OGarbage.      (* == payload[:n] / anything else *)
 Record ocall := mkOCall {
@@ -164,31 +202,39 @@ Record ocall := mkOCall {
 
 Inductive ccall :=
 | KDownload (get status : bool) (len : option Z) (reads : list (option Z)) (close : bool)
-| KDecompress (opened : bool) (chunks : list (option Z)) (close : bool).
+| KDecompress (opened : bool) (chunks : list (option Z)) (close : bool)
+| KConvert (clients : list (option Z)) (expected : list Z).   (* validate_file passes iff the content is `expected` *)
 
 Record C19_case := mkC19 { k_calls : list (ccall * option nat) }.
 Record C19_obs := mkO19 { o_calls : list ocall }.
 
 Definition the_path : str := [100; 97; 116; 97; 46; 108; 122; 109; 97].   (* "data.lzma" *)
 Definition the_dpath : str := [100; 97; 116; 97].                           (* "data" *)
+Definition the_spath : str := split_file_name [116; 114; 97; 105; 110].     (* federated_cifar100_train.sqlite *)
 
 Definition to_call (c : ccall) : call Z :=
   match c with
   | KDownload g s len rd cl => CDownload the_path (mkSource g s len rd cl)
   | KDecompress o ch cl => CDecompress the_dpath (mkZ o ch cl)
+  | KConvert cs ex => CConvert the_spath (mkCS cs (fun c => list_beq Z.eqb c ex))
   end.
 
 Definition sumz (l : list Z) : Z := fold_left Z.add l 0.
 
 Definition ev19_agree (c : ccall) (e : ev19 Z) (o : oev19) : bool :=
-  let final := match c with KDownload _ _ _ _ _ => the_path | _ => the_dpath end in
+  let final := match c with KDownload _ _ _ _ _ => the_path | KDecompress _ _ _ => the_dpath | KConvert _ _ => the_spath end in
   let part := match c with
               | KDownload _ _ _ _ _ => the_path ++ download_partial_suffix
-              | _ => the_dpath ++ decompress_partial_suffix
+              | KDecompress _ _ _ => the_dpath ++ decompress_partial_suffix
+              | KConvert _ _ => the_spath ++ split_partial_suffix
               end in
   match e, o with
   | DMk, OMk => true
   | DEx n, OEx true => streqb n final
+  | DEx n, OEx false => streqb n part
+  | DRm n, ORm => streqb n part
+  | DClient j, OClient j' => (j =? j')%nat
+  | DValidate n, OValidate => streqb n part
   | DCr n, OCr true => streqb n part
   | DWr n, OWr => streqb n part
   | DCl n b, OCl k => streqb n part && (sumz b =? k)
@@ -224,10 +270,11 @@ Fixpoint calls_agree (cs : list (ccall * option nat)) (rs : list (list (ev19 Z) 
   match cs, rs, os with
   | [], [], [] => true
   | (c, _) :: cs', (tr, d, out) :: rs', o :: os' =>
-    let final := match c with KDownload _ _ _ _ _ => the_path | _ => the_dpath end in
+    let final := match c with KDownload _ _ _ _ _ => the_path | KDecompress _ _ _ => the_dpath | KConvert _ _ => the_spath end in
     let part := match c with
                 | KDownload _ _ _ _ _ => the_path ++ download_partial_suffix
-                | _ => the_dpath ++ decompress_partial_suffix
+                | KDecompress _ _ _ => the_dpath ++ decompress_partial_suffix
+                | KConvert _ _ => the_spath ++ split_partial_suffix
                 end in
     trace19_agree c tr (oc_trace o) && (outcome_code out =? oc_outcome o) &&
     file_agree (lookup streqb d final) (oc_final o) && file_agree (lookup streqb d part) (oc_partial o) &&
